@@ -1,6 +1,323 @@
 #!/usr/bin/env python3
-"""verus_extract.py -- mechanical extraction of real functions into single-file Verus units."""
+"""verus_extract.py -- mechanical extraction of real functions into single-file Verus units.
+
+Verus only works single-file offline in this sandbox, so every run re-extracts the listed
+`fn` items from /repo's working tree into <scratch>/verus/<unit>.rs and runs `verus` on it.
+
+A unit is described by /verif/verus/<unit>.spec:
+
+    @unit seam
+    @props C01,C16,C19
+    @tier quick
+    @prelude
+      ... verus text emitted verbatim before the extracted items (type re-declarations, spec fns) ...
+    @fn src/action.rs :: - :: map_bit_board_to_squares :: ret squares
+    @clause  one-line statement of the contract (for the evidence)
+    @contract
+      ... requires / ensures text, inserted between the real signature and the real body ...
+    @start
+      ... text inserted at the very start of the body ...
+    @loop while board != 0
+      ... invariant / decreases text inserted between that loop header and its `{` ...
+    @forloop for is_p1 in [true, false].iter() :: it1
+      ... as @loop; additionally the header gets the ghost iterator name:  for is_p1 in it1: [true, false].iter()
+    @before <exact stripped source line>
+      ... text inserted before that line ...
+    @after <exact stripped source line>
+      ... text inserted after that line ...
+    @endfn
+    @postlude
+      ... verbatim ...
+
+What the extraction keeps: the signature and every body line of the real function, byte for byte
+(SHA-256 of the real item goes into the evidence).  What it drops or changes, exactly:
+  * everything that is not listed (callers, other items); doc comments and attributes above the fn
+  * the return type `-> T` is written `-> (name: T)` so that the contract can name the result
+  * `for` loop headers listed under @forloop get a ghost iterator name
+  * text is only ever *inserted* (contract clauses, invariants, ghost/proof blocks)
+A missing or ambiguous anchor line raises WeaveError -> exit 2 (UNDECIDED), never a VIOLATION.
+"""
+import os
+import re
+import sys
+
+sys.path.insert(0, os.path.dirname(os.path.abspath(__file__)))
+import weave  # noqa: E402
+from weave import WeaveError  # noqa: E402
+
+VERIF = weave.VERIF
+
+
+def parse_spec(path):
+    unit = dict(name=None, props=[], tier='quick', prelude='', postlude='', fns=[], mem_gb=3, timeout_s=600, est_s=10,
+                path=path)
+    cur_fn = None
+    cur_block = None  # (kind, arg, lines)
+    mode = None
+
+    def flush():
+        nonlocal cur_block
+        if cur_block is None:
+            return
+        kind, arg, lines = cur_block
+        text = '\n'.join(lines)
+        if kind == 'prelude':
+            unit['prelude'] += text + '\n'
+        elif kind == 'postlude':
+            unit['postlude'] += text + '\n'
+        elif cur_fn is not None:
+            if kind == 'contract':
+                cur_fn['contract'] = text
+            elif kind == 'start':
+                cur_fn['start'] = text
+            else:
+                cur_fn['inserts'].append(dict(kind=kind, anchor=arg, text=text))
+        cur_block = None
+
+    for raw in open(path).read().split('\n'):
+        m = re.match(r'@(\w+)\s*(.*)', raw)
+        if m and m.group(1) in ('unit', 'props', 'tier', 'prelude', 'postlude', 'fn', 'clause', 'contract', 'start', 'loop',
+                                'forloop', 'before', 'after', 'endfn', 'mem', 'timeout', 'est', 'replace'):
+            tag, rest = m.group(1), m.group(2).strip()
+            flush()
+            if tag == 'unit':
+                unit['name'] = rest
+            elif tag == 'props':
+                unit['props'] = [x.strip() for x in rest.split(',')]
+            elif tag == 'tier':
+                unit['tier'] = rest
+            elif tag == 'mem':
+                unit['mem_gb'] = float(rest)
+            elif tag == 'timeout':
+                unit['timeout_s'] = int(rest)
+            elif tag == 'est':
+                unit['est_s'] = int(rest)
+            elif tag in ('prelude', 'postlude'):
+                cur_block = (tag, None, [])
+            elif tag == 'fn':
+                parts = [p.strip() for p in rest.split('::')]
+                cur_fn = dict(file=parts[0], owner=parts[1], fn=parts[2], ret=None, contract='', start='', inserts=[],
+                              clause='', emit_owner=None)
+                for extra in parts[3:]:
+                    if extra.startswith('ret '):
+                        cur_fn['ret'] = extra[4:].strip()
+                    if extra.startswith('impl '):
+                        cur_fn['emit_owner'] = extra[5:].strip()
+                unit['fns'].append(cur_fn)
+            elif tag == 'clause':
+                if cur_fn is not None:
+                    cur_fn['clause'] += (' ' if cur_fn['clause'] else '') + rest
+            elif tag in ('contract', 'start'):
+                cur_block = (tag, None, [])
+            elif tag in ('loop', 'forloop', 'before', 'after', 'replace'):
+                cur_block = (tag, rest, [])
+            elif tag == 'endfn':
+                cur_fn = None
+            continue
+        if cur_block is not None:
+            cur_block[2].append(raw)
+    flush()
+    return unit
+
+
+def transform_signature(sig, ret_name):
+    sig = sig.rstrip()
+    if ret_name:
+        # find the top-level `->`
+        depth = 0
+        pos = None
+        for i, ch in enumerate(sig):
+            if ch in '([<':
+                depth += 1
+            elif ch in ')]>':
+                if ch == '>' and i > 0 and sig[i - 1] == '-':
+                    if depth == 0:
+                        pos = i - 1
+                    continue
+                depth -= 1
+        if pos is None:
+            raise WeaveError('anchor lost: signature has no return type to name (%s)' % sig.strip()[:60])
+        ty = sig[pos + 2:].strip()
+        sig = sig[:pos] + '-> (%s: %s)' % (ret_name, ty)
+    return sig
+
+
+def build_fn(repo, f):
+    path = os.path.join(repo, f['file'])
+    if not os.path.exists(path):
+        raise WeaveError('anchor lost: file %s' % f['file'])
+    s = open(path).read()
+    loc = weave.find_fn(s, f['owner'], f['fn'])
+    item = s[loc['sig_start']:loc['end']]
+    sig = s[loc['sig_start']:loc['body_open']]
+    body = s[loc['body_open'] + 1:loc['end'] - 1]
+    lines = body.split('\n')
+    used = set()
+
+    def find_line(anchor, strip_brace=False):
+        hits = []
+        for k, l in enumerate(lines):
+            t = l.strip()
+            if strip_brace and t.endswith('{'):
+                t = t[:-1].strip()
+            if t == anchor and k not in used:
+                hits.append(k)
+        if len(hits) != 1:
+            raise WeaveError('anchor lost in %s::%s: line `%s` found %d times' % (f['owner'], f['fn'], anchor, len(hits)))
+        return hits[0]
+
+    # resolve all anchors against the pristine body first
+    ops = []
+    for ins in f['inserts']:
+        if ins['kind'] == 'loop':
+            k = find_line(ins['anchor'], strip_brace=True)
+            ops.append((k, 'loop', ins, None))
+        elif ins['kind'] == 'forloop':
+            header, itname = [x.strip() for x in ins['anchor'].split('::')]
+            k = find_line(header, strip_brace=True)
+            ops.append((k, 'forloop', ins, itname))
+        elif ins['kind'] in ('before', 'after'):
+            k = find_line(ins['anchor'])
+            ops.append((k, ins['kind'], ins, None))
+    out_lines = list(lines)
+    # apply from the bottom up so that indices stay valid; several inserts on one line keep spec order
+    for k, kind, ins, extra in sorted(ops, key=lambda x: -x[0]):
+        l = out_lines[k]
+        if kind == 'loop':
+            assert l.rstrip().endswith('{')
+            out_lines[k] = l.rstrip()[:-1].rstrip() + '\n' + ins['text'] + '\n{'
+        elif kind == 'forloop':
+            mm = re.match(r'(\s*for\s+.+?\s+in\s+)(.*)\{\s*$', l)
+            if not mm:
+                raise WeaveError('anchor lost: not a for loop header: %s' % l.strip())
+            out_lines[k] = '%s%s: %s\n%s\n{' % (mm.group(1), extra, mm.group(2).strip(), ins['text'])
+        elif kind == 'before':
+            out_lines[k] = ins['text'] + '\n' + l
+        elif kind == 'after':
+            out_lines[k] = l + '\n' + ins['text']
+    new_sig = transform_signature(sig, f['ret'])
+    text = new_sig + '\n' + f['contract'] + '\n{\n' + (f['start'] + '\n' if f['start'] else '') + '\n'.join(out_lines) + '}\n'
+    return text, weave.sha(item), item
+
+
+def build_unit(repo, unit, outdir):
+    os.makedirs(outdir, exist_ok=True)
+    parts = ['// GENERATED on every run by tools/verus_extract.py from %s and the working tree of %s\n' % (
+        os.path.basename(unit['path']), repo), 'use vstd::prelude::*;\nverus! {\n', unit['prelude']]
+    meta = []
+    by_owner = {}
+    order = []
+    for f in unit['fns']:
+        text, digest, item = build_fn(repo, f)
+        meta.append(dict(file=f['file'], owner=f['owner'], fn=f['fn'], sha256=digest, clause=f['clause'],
+                         real_lines=item.count('\n') + 1))
+        owner = f['emit_owner']
+        if owner:
+            if owner not in by_owner:
+                by_owner[owner] = []
+                order.append(('impl', owner))
+            by_owner[owner].append(text)
+        else:
+            order.append(('fn', text))
+    for kind, x in order:
+        if kind == 'fn':
+            parts.append(x + '\n')
+        else:
+            parts.append('impl %s {\n%s\n}\n' % (x, '\n'.join(by_owner[x])))
+    parts.append(unit['postlude'])
+    parts.append('\n} // verus!\nfn main() {}\n')
+    path = os.path.join(outdir, unit['name'] + '.rs')
+    open(path, 'w').write(''.join(parts))
+    return path, meta
+
+
+VERR = re.compile(r'^error(\[E\d+\])?: (.*)$', re.M)
+CONTRACT_FAIL = ('postcondition not satisfied', 'invariant not satisfied', 'precondition not satisfied',
+                 'possible arithmetic underflow/overflow', 'possible bit shift underflow/overflow', 'possible division by zero',
+                 'decreases not satisfied', 'possible overflow', 'index out of bounds', 'possible')
+HINT_FAIL = ('assertion failed', 'assertion not satisfied')
+
+
+def run_unit(run, o):
+    """called by runner.Run.execute through o['run']"""
+    import runner
+    unit = o['unit']
+    res = dict(o)
+    res.pop('run', None)
+    res.pop('unit', None)
+    res.update(failed=[], checks=0, covers=0, covers_sat=0, solver_s=None, wall_s=0, rss_mb=0, reason='', verdict='undecided')
+    try:
+        path, meta = build_unit(runner.REPO, unit, os.path.join(run.scratch, 'verus'))
+    except WeaveError as e:
+        res['reason'] = str(e)
+        runner.log('[undecided ] %-44s %s' % (o['name'], res['reason']))
+        return res
+    res['extracted'] = meta
+    run.acquire(o['mem_gb'])
+    try:
+        cmd = ['verus', path, '--triggers-mode', 'silent', '--time', '--num-threads', '4']
+        rc, out, wall, rss, to = runner.run_cmd(cmd, os.path.dirname(path), o['timeout_s'], mem_gb=o['mem_gb'] + 4)
+    finally:
+        run.release(o['mem_gb'])
+    logp = os.path.join(run.scratch, 'logs', o['name'] + '.log')
+    os.makedirs(os.path.dirname(logp), exist_ok=True)
+    open(logp, 'w').write(out)
+    res.update(wall_s=round(wall, 1), rss_mb=rss, log=logp)
+    m = re.search(r'verification results:: (\d+) verified, (\d+) errors', out)
+    ms = re.search(r'total-time:\s+(\d+) ms', out) or re.search(r'smt-run:\s+(\d+) ms', out)
+    if ms:
+        res['solver_s'] = int(ms.group(1)) / 1000.0
+    sm = re.search(r'smt-run\s*:?\s+(\d+) ms', out)
+    if sm:
+        res['solver_s'] = int(sm.group(1)) / 1000.0
+    if to:
+        res['reason'] = 'timeout'
+    elif m and int(m.group(2)) == 0 and int(m.group(1)) >= len(unit['fns']):
+        res['verdict'] = 'discharged'
+        res['checks'] = int(m.group(1))
+        res['covers'] = res['covers_sat'] = 1  # vacuity: see the `proof fn vacuity_*` must-fail items of the unit
+    elif m and int(m.group(2)) > 0:
+        errs = [e[1] for e in VERR.findall(out) if not e[1].startswith('aborting')]
+        contract = [e for e in errs if any(k in e for k in CONTRACT_FAIL)]
+        hints = [e for e in errs if any(k in e for k in HINT_FAIL)]
+        other = [e for e in errs if e not in contract and e not in hints]
+        res['checks'] = int(m.group(1)) + int(m.group(2))
+        if other:
+            res['reason'] = 'verus tool/type error: ' + '; '.join(other[:3])[:300]
+        elif contract:
+            res['verdict'] = 'failed'
+            locs = re.findall(r'error: ([^\n]*)\n\s+--> [^\n]*?:(\d+):\d+\n[^\n]*\n\s*\d+ \|\s*([^\n]*)', out)
+            res['failed'] = [dict(id='verus', desc=e[0] + ': ' + e[2].strip()[:160], loc='%s:%s' % (os.path.basename(path), e[1]))
+                             for e in locs if any(k in e[0] for k in CONTRACT_FAIL)] or [dict(id='verus', desc=c, loc=path) for c in contract]
+        else:
+            res['reason'] = 'only inserted proof hints failed (proof did not go through; the contract itself was not refuted): ' + '; '.join(hints[:2])
+    else:
+        errs = [e[1] for e in VERR.findall(out)]
+        res['reason'] = 'verus produced no result: ' + ('; '.join(errs[:3])[:300] or out[-300:])
+    runner.log('[%-10s] %-44s %6.0fs %5d MB  %s' % (res['verdict'], o['name'], wall, rss, res.get('reason', '') if res['verdict'] != 'failed' else '; '.join(f['desc'] for f in res['failed'][:2])))
+    return res
 
 
 def load_obligations():
-    return []
+    d = os.path.join(VERIF, 'verus')
+    obls = []
+    if not os.path.isdir(d):
+        return obls
+    for fn in sorted(os.listdir(d)):
+        if not fn.endswith('.spec'):
+            continue
+        unit = parse_spec(os.path.join(d, fn))
+        obls.append(dict(
+            backend='verus', name='verus_' + unit['name'], props=unit['props'], tier=unit['tier'], kind='verus',
+            mem_gb=unit['mem_gb'], timeout_s=unit['timeout_s'], est_s=unit['est_s'], bounded=None, expect='pass', known=None,
+            fns=['%s%s' % ('' if f['owner'] in ('-', '') else f['owner'] + '::', f['fn']) for f in unit['fns']],
+            clause=' | '.join(f['clause'] for f in unit['fns']), file=fn, unit=unit, run=run_unit, uses=[], profile=None))
+    return obls
+
+
+if __name__ == '__main__':
+    u = parse_spec(sys.argv[1])
+    p, meta = build_unit(sys.argv[2] if len(sys.argv) > 2 else '/repo', u, sys.argv[3] if len(sys.argv) > 3 else '/var/tmp/verif-scratch/vs')
+    print(p)
+    for m in meta:
+        print(m)
